@@ -5,7 +5,8 @@ def register(claim, na):
           "exhaustive enumeration of request expressions x host grid against a reference sufficiency predicate",
           "Every request expression built from the term alphabet (cpu mem x cores, cuda mem x count, duration; & up to 3 terms, | of 2 alternatives; "
           "programmatic and textual in 3 whitespace layouts) is evaluated on every host of a 168-host grid; match() is compared with an independent "
-          "sufficiency predicate, parse() with the programmatic value, operands are deep-snapshotted around &, *, |. Complete within the alphabet; "
+          "sufficiency predicate, parse() with the programmatic value, operands are deep-snapshotted around &, *, |; LauncherRegistry.find over two hosts "
+          "examined in sequence must return the launcher of the first alternative some host satisfies. Complete within the alphabet; "
           "a closed finite product is the right level for a pure function of two small structures.",
           "Alphabet bounds (3 memory sizes, 3 core counts, <=3 GPUs, 3 durations); host policies min_memory/priority left at defaults; humanfriendly's size/timespan parsing trusted.",
           "DESIGN.md 3/C18")
@@ -15,23 +16,29 @@ def register(claim, na):
               "/verif/universe/g.py. The reference encoder/signature (engines/refmodel.py) is trusted as the reading of the documentation; it is "
               "independent of experimaestro's hashing code and cross-checked against 349 identifiers pinned from the original commit.")
     claim("C01", "G", "exploration",
-          "bounded-exhaustive enumeration of configuration graphs x construction/sealing/request histories x hash seeds, compared with an independent reference encoder",
+          "bounded-exhaustive enumeration of configuration graphs x construction/sealing/request histories x hash seeds, compared with an independent reference encoder; preemption-bounded exhaustive exploration of two real threads",
           "All descriptions within (N, k) are built by the real API under every history of the history alphabet (construction style, keyword and dict "
           "insertion order, identifier requests on all nodes in all orders before and after sealing/submitting) in two processes with different "
           "PYTHONHASHSEED; every identifier obtained must equal the content-determined value of the reference encoder, job directories must derive "
-          "from it, and 349 identifiers pinned from the original commit must be reproduced. Exhaustive within the stated bounds.",
+          "from it, and 349 identifiers pinned from the original commit must be reproduced. Further histories: written out and loaded back with the "
+          "stored identifiers kept; a task output that is a parameter of its own task; two user threads (Engine T: real threads, every schedule with <= 1 "
+          "preemption at the traced events of core/objects.py) computing identifiers / sealing / instantiating configurations that share "
+          "sub-configurations - observations must equal the sequential ones. Exhaustive within the stated bounds.",
           G_NOTE, "DESIGN.md 2.1, 3/C01")
     claim("C02", "G", "exploration",
           "bounded-exhaustive enumeration of configuration graphs x every applicable signature-neutral edit at every node",
           "For every description, every neutral edit the statement lists (explicit default/None, Meta/Option/Path value, meta-flagged sub-configurations "
           "as field/list element/dict value and changes below them, tags, token and explicit dependencies, launcher, workspace, run mode, class "
           "extended with defaulted/Meta/generated parameters) is applied at every node where it applies; the real identifier must not change. "
-          "The reference signature must agree that the edit is neutral, otherwise the check stops as a harness error.",
+          "The reference signature must agree that the edit is neutral, otherwise the check stops as a harness error. Plus the closed family "
+          "'default value that is itself a configuration' (8 writings x 2 classes x 2 embeddings x 4 sealing histories; one known finding listed in known_findings.txt).",
           G_NOTE, "DESIGN.md 3/C02")
     claim("C03", "G", "exploration",
-          "bounded-exhaustive enumeration of configuration graphs, grouping by real identifier against canonical signatures",
+          "bounded-exhaustive enumeration of configuration graphs, grouping by real identifier against canonical signatures; preemption-bounded exhaustive exploration of two real threads",
           "All descriptions within (N, k) - the space contains every pair one small structural edit apart because it contains everything - are "
-          "identified by the real code; any two descriptions sharing an identifier must have the same canonical signature.",
+          "identified by the real code; any two descriptions sharing an identifier must have the same canonical signature. Plus two closed families: a "
+          "task output that is a parameter of its own task (marked after it was sealed and identified), and identifiers observed under every "
+          "schedule with <= 1 preemption of two real threads working on configurations that share sub-configurations (Engine T), for two contents of each shape.",
           G_NOTE + " Domain as in the statement: no control characters, dicts nested <= 2 levels.", "DESIGN.md 3/C03")
 
     claim("C12", "G", "exploration",
@@ -40,7 +47,10 @@ def register(claim, na):
           "configuration and instance mode, state_dict/from_state_dict, save/load); the reloaded real objects are walked into a description that must "
           "be isomorphic to the original (classes, every parameter incl. ignored ones, sharing, cycles, meta flags, pre/init task lists, producing "
           "task of outputs) and the recomputed identifier must equal the original. Two real GENERATE_ONLY job directories are read by the real "
-          "run() and the task body's view (values, sharing, tags, pre/init/body order) compared with what was configured.",
+          "run() and the task body's view (values, sharing, tags, pre/init/body order) compared with what was configured (after an earlier generation of "
+          "the same directory with other Meta values / tags). Identifiers (full and raw) of every reloaded node and of a fresh configuration "
+          "embedding the reloaded root are compared with the originals, also when the loader keeps the stored identifiers. NORMAL-mode route on "
+          "Engine W: a job submitted again with another Meta value after a failure - every launched process reads the values of the submission that launched it.",
           G_NOTE, "DESIGN.md 3/C12")
     claim("C13", "G", "exploration",
           "bounded-exhaustive enumeration of configuration graphs (sharing, cycles, pre/init tasks anywhere) x {instance(), fromParameters}",
@@ -52,12 +62,14 @@ def register(claim, na):
           "bounded-exhaustive enumeration of configuration graphs x {seal, submit} x every node x every mutation attempt",
           "After seal() or a DRY_RUN submit, every assignment of a type-correct value to every parameter of every reachable node (through lists, dicts, "
           "task outputs, pre/init tasks, cycles), set_meta and add_pretasks must raise; identifiers of all nodes and the job directory are re-read after "
-          "every attempt and must not move.",
+          "every attempt and must not move. Also after an aborted first sealing attempt and for a task first instantiated in a directory context of "
+          "its own; the complete value table (generated paths included) of configurations sealed earlier (upstream tasks) must not be changed by a later submission.",
           G_NOTE, "DESIGN.md 3/C14")
     claim("C17", "G", "exploration",
           "bounded-exhaustive enumeration of task graphs with generated-path parameters at every position, submitted twice",
           "All generated paths of every description must lie inside the job directory, be pairwise distinct across (object, parameter) pairs, and be "
-          "identical (relative to the job directory) when an equal fresh graph is submitted again.",
+          "identical (relative to the job directory) when an equal fresh graph is submitted again in every construction style / order, and in another process "
+          "with another PYTHONHASHSEED.",
           G_NOTE, "DESIGN.md 3/C17")
 
     W_NOTE = ("The real scheduler, tokens, locks, launcher, script builder and job preparation run unmodified on a virtual asyncio loop with "
@@ -71,29 +83,32 @@ def register(claim, na):
           "Every DAG on <=3 nodes in every topological submission order with every edge realised by each of 11 embedding kinds (rotated), diamonds on 4 "
           "nodes and failing subsets are run under every schedule within the deviation bound from 2-3 default policies; at each launch event every "
           "ancestor from the scenario description must already have exited with 0. Static half (Engine G): job.dependencies after a DRY_RUN submit "
-          "equals the reference upstream set for every task description within (N,k).",
+          "equals the reference upstream set for every task description within (N,k). Plus late-join scenarios (dependencies partly over at submission, "
+          "all pairs of embedding kinds, both iteration orders of the dependency sets), carry-over of task objects between experiments and job-process deaths.",
           W_NOTE, "DESIGN.md 2.2, 3/C04")
     claim("C05", "W", "model_checking", W_TECH,
           "Submission histories (duplicates at every position, second experiment with the success marker present, re-submission after failure), two "
           "nested experiments, two user threads submitting identical configurations to one experiment, and two simulated scheduler processes "
           "submitting the same job with fine-grained scheduling points; all schedules within the bound; two real TaskRunner processes of one job "
-          "directory interleaved at every line (pair exploration); oracles on every execution: first output returned, one registry entry, body intervals never overlap, no body after success, no "
+          "directory interleaved at every line (pair exploration) and three of them (the second held inside its body while a third is launched); oracles on every execution: first output returned, one registry entry, body intervals never overlap, no body after success, no "
           "launch when the marker existed at submission.",
           W_NOTE, "DESIGN.md 3/C05")
     claim("C06", "W", "model_checking", W_TECH,
           "Token workloads, DAGs with failing subsets, submission histories, job.wait()/experiment.wait() scripts and jobs taken back from another "
           "scheduler (whose process dies at every point) under all schedules within the bound from three default policies; every "
           "assignment to Job.state is logged (finality), final states are compared with exit codes, job.wait() values, unfinishedJobs, quiescent hangs "
-          "and the position of the experiment's exit relative to the last final state are checked on every execution.",
+          "and the position of the experiment's exit relative to the last final state are checked on every execution. Includes two scheduler "
+          "processes sharing a token directory (fine-grained points incl. lock hand-over, long preemptions, eager-observer policies), late joiners and carry-over between experiments.",
           W_NOTE, "DESIGN.md 3/C06")
     claim("C07", "W", "model_checking", W_TECH,
           "Every DAG on <=3 nodes x every non-empty failing subset (plus failing token holders) under all schedules within the bound: no launch below a "
-          "failed ancestor, cancelled jobs end ERROR/DEPENDENCY, independent jobs end by their own exit code, FailedExperiment iff some job failed.",
+          "failed ancestor, cancelled jobs end ERROR/DEPENDENCY, independent jobs end by their own exit code, FailedExperiment iff some job failed - also "
+          "when the failed upstream belongs to an earlier experiment of the process (carry-over).",
           W_NOTE, "DESIGN.md 3/C07")
     claim("C08", "W", "model_checking", W_TECH,
           "Seven (capacity; requests) workloads, failing holder, chain/fork under a token, two tokens, file and process tokens, two simulated processes "
           "sharing the token directory (fine-grained points, 17 default policies incl. process priorities, long preemptions): at every launch and every token-file creation of every execution the held amount must "
-          "not exceed the capacity.",
+          "not exceed the capacity (per token directory: a token defined again by a nested experiment is the same token).",
           W_NOTE, "DESIGN.md 3/C08")
     claim("C09", "W", "model_checking", W_TECH,
           "The C08 workloads: at the quiescent end of every execution no hang (a fitting waiting job was launched), no token file left, available == "
@@ -113,7 +128,8 @@ def register(claim, na):
           "All 512 three-run histories over subsets of two jobs x {normal end, exception}, all two-run histories with the exception raised with or "
           "without waiting under <=1 deviation from three policies, a completed run followed by a run killed at every scheduling point and re-run, two "
           "processes entering the same experiment: after every run jobs/ must equal the run's plan with resolving links and no jobs.bak (normal end), "
-          "or jobs + jobs.bak must still contain the last completed plan (abort/kill), and the real `orphans` command must list none of them.",
+          "or jobs + jobs.bak must still contain the last completed plan (abort/kill), and the real `orphans` command must list none of them. The lock "
+          "model follows POSIX record locks (per process; dropped when the process closes any descriptor of the file).",
           W_NOTE, "DESIGN.md 3/C16")
 
     claim("C10", "K", "fault_enumeration",
@@ -123,7 +139,7 @@ def register(claim, na):
           "SIGINT (thorough: SIGHUP) delivered at every line event of run.py, the generated script and the task body; successor states are explored "
           "breadth-first until no new state appears; three task variants. Checked on every transition: success marker only after a completed body, "
           "lock free after death, relaunch runs the body iff no success marker, TERM/INT inside the body leave a failure marker and no success marker, "
-          "a run that ended on its own leaves no pid file.",
+          "a run that ended on its own leaves no pid file. Overlapping launches: pairs and triples of real TaskRunner processes on one job directory (see C05).",
           "Crash points are Python line events (a signal between two lines behaves as at the next line). The pid file is written by the harness before "
           "every launch (the scheduler writes it right after the spawn). Fork-server launch instead of a fresh interpreter.", "DESIGN.md 2.3, 3/C10")
 
@@ -133,7 +149,8 @@ def register(claim, na):
           "compiled by the real createFilter and evaluated on 36 real job directories covering all tag/state assignments; (b) every two-job layout "
           "(marker state incl. a re-launched job still carrying its failure marker x tag x membership in jobs / jobs.bak / none; thorough: three jobs) "
           "is built on disk and `jobs clean` (+-filter, +-perform) and `orphans` (+-clean) are run through the real click CLI; the set of directories "
-          "that disappeared must equal the expected deletion set (nothing without --perform, never a job whose process is alive).",
+          "that disappeared must equal the expected deletion set (nothing without --perform, never a job whose process is alive). A third tag carries "
+          "values and patterns with dots, digits and backslashes.",
           "Closed alphabets (2 tags x 3 values, 4 states, 9 commands). Mixed and/or chains without parentheses are not enumerated (no documented "
           "precedence). `jobs kill` is outside the statement.", "DESIGN.md 3/C19")
 
@@ -142,7 +159,7 @@ def register(claim, na):
           "(a) All type expressions of depth <=3 (thorough 4) over seven scalar kinds with List/Dict, required and Optional, each as parameter of a "
           "dynamically defined class; candidates: the conforming value, each documented coercion at each leaf, every one-constructor-off value at "
           "every depth; by attribute assignment and by keyword: an accepted value must be deeply of the declared type and read back equal, a rejected "
-          "one must leave the parameter unchanged. (b) Every task description within (N,k) with one required value removed at one node is "
+          "one must leave the parameter unchanged; the same candidates as *default value* of the parameter of a fresh class. (b) Every task description within (N,k) with one required value removed at one node is "
           "submitted in a NORMAL-mode experiment running on the virtual scheduler: submit must raise with registry and unfinishedJobs unchanged "
           "and nothing launched.",
           "Closed value alphabet (one conforming value per shape); bool accepts everything by design; Union not covered.", "DESIGN.md 3/C15")
@@ -154,5 +171,5 @@ def register(claim, na):
           "(virtual world) with the class not yet deprecated; from each, `deprecated list`, `--fix`, `--fix --cleanup` are applied in every order until "
           "no new canonical jobs/ tree appears (previously linked and partially repaired states arise by themselves); in every state the job data must "
           "still exist; after any --fix the new path must resolve to the old files and re-submitting the replacement class in a virtual experiment "
-          "must launch nothing. One known finding (renamed class) is listed in known_findings.txt.",
+          "must launch nothing. Layouts include a replacement-type directory that lives elsewhere and is linked into jobs/. One known finding (renamed class) is listed in known_findings.txt.",
           G_NOTE + " Two deprecated pairs (moved, renamed), <=2 former jobs per workspace.", "DESIGN.md 3/C20")
